@@ -27,6 +27,13 @@ structure RGate where
 
 def swapTag : Nat := 0
 
+/-- tag of a final (non-collapsing) measurement; collapsing measurements carry other tags. -/
+def measTag : Nat := 1
+
+/-- a measurement that no later gate touches: the routers detach it and re-attach it after
+    the last SWAP, through the final layout. -/
+def isFinalMeas (g : RGate) : Bool := g.meas && g.tag == measTag
+
 /-- the SWAP gate the routers insert. -/
 def swapGate (a b : Nat) : RGate := ⟨swapTag, false, [a, b]⟩
 
@@ -178,7 +185,7 @@ def findConnected (q0 q1 : Nat) (l2p : List Nat) : List Nat → List RGate → O
 
 /-- the actions of one iteration of the loop of `StarConnectivityRouter.__call__`. -/
 def starActions (mid : Nat) (s : RState) (g : RGate) (rest : List RGate) : Option (List Action) :=
-  if g.meas then some [.exec [g]]
+  if g.meas then (if isFinalMeas g then some [] else some [.exec [g]])
   else if g.qs.length > 2 then none
   else
     match g.qs.map (look s.l2p) with
@@ -197,7 +204,10 @@ def starLoop (mid : Nat) : RState → List RGate → Option RState
     | none => none
     | some as => starLoop mid (run s as) rest
 
-def starRoute (n mid : Nat) (queue : List RGate) : Option RState := starLoop mid (init n) queue
+/-- the whole call: collapsing measurements are routed in place, final measurements are
+    deferred and re-attached through the final layout, in their original order. -/
+def starRoute (n mid : Nat) (queue : List RGate) : Option RState :=
+  (starLoop mid (init n) queue).map fun s => appendFinal s (queue.filter isFinalMeas)
 
 /-- the action list of a whole star run (for the theorems). -/
 def starTrace (mid : Nat) : RState → List RGate → Option (List Action)
